@@ -1,6 +1,7 @@
 // Package fakechain is an Ethereum execution node for the syncers under
-// verification: an in-process JSON-RPC server (rpc.NewServer + rpc.DialInProc,
-// no sockets) whose "eth" namespace serves a generated block TREE.
+// verification: an in-process JSON-RPC server (rpc.NewServer, reached by the
+// real ethclient.Client through an in-memory HTTP round trip; no sockets, no
+// goroutines) whose "eth" namespace serves a generated block TREE.
 //
 //   - A block is (number, parent, timestamp, extra/branch tag, logs). Its hash is
 //     the real types.Header.Hash() of exactly the header that is sent to the
@@ -30,6 +31,8 @@ import (
 	"errors"
 	"fmt"
 	"math/big"
+	"net/http"
+	"net/http/httptest"
 	"strings"
 	"sync"
 
@@ -389,7 +392,21 @@ func (c *Chain) enter(method string) error {
 	return nil
 }
 
-// Client returns the *ethclient.Client connected in-process to this chain.
+// inMemoryTransport hands every HTTP request of the RPC client directly to the
+// RPC server's ServeHTTP, in the caller's goroutine: no socket, no pipe, no
+// background reader, no deadline. (rpc.DialInProc was used first; its net.Pipe
+// codec sets a 10 s write deadline and the server drops a response whose write
+// times out, which on an overloaded machine leaves the client waiting forever.)
+type inMemoryTransport struct{ srv *rpc.Server }
+
+func (t inMemoryTransport) RoundTrip(req *http.Request) (*http.Response, error) {
+	rec := httptest.NewRecorder()
+	t.srv.ServeHTTP(rec, req)
+	return rec.Result(), nil
+}
+
+// Client returns the *ethclient.Client connected in-process to this chain
+// (JSON-RPC over an in-memory HTTP round trip into rpc.Server).
 func (c *Chain) Client() *ethclient.Client {
 	c.mu.Lock()
 	defer c.mu.Unlock()
@@ -398,7 +415,12 @@ func (c *Chain) Client() *ethclient.Client {
 		if err := c.server.RegisterName("eth", &ethAPI{c}); err != nil {
 			panic(err)
 		}
-		c.client = ethclient.NewClient(rpc.DialInProc(c.server))
+		rc, err := rpc.DialOptions(context.Background(), "http://fakechain.invalid",
+			rpc.WithHTTPClient(&http.Client{Transport: inMemoryTransport{c.server}}))
+		if err != nil {
+			panic(err)
+		}
+		c.client = ethclient.NewClient(rc)
 	}
 	return c.client
 }
